@@ -8,7 +8,10 @@ VARIANTS = [
     M('C13', 'anchoring-switched-off', E(RX, "TERMINATE = True  # False", "TERMINATE = False"), rule='C13-ANCHOR', key='TERMINATE'),
     M('C13', 'vrle2re-returns-unanchored', E(RX, "            parts = ws + parts + ws\n        return poss_term_re(''.join(parts))", "            parts = ws + parts + ws\n            return ''.join(parts)\n        return poss_term_re(''.join(parts))"),
       rule='C13-ANCHOR', key='vrle2re'),
-    M('C13', 'tag-changes-quantifier', E(RX, "        elif m == M == 2 and len(regex) == 1:", "        elif m == M == 2 and len(regex) == 1 and not tagged:"), rule='C13-TAG', key='fragment2re'),
+    # x{2} instead of xx when tagged: other text, the same strings matched - the property speaks of what is matched (was a mutant
+    # of the purely syntactic C13-TAG; DESIGN section 8)
+    M('C13', 'tag-changes-quantifier-text-only', E(RX, "        elif m == M == 2 and len(regex) == 1:", "        elif m == M == 2 and len(regex) == 1 and not tagged:"), kind='refactor'),
+    M('C13', 'tag-changes-what-is-matched', E(RX, "('{%d,%s}' % (m, M))", "('{%d,%s}' % (m, M + 1 if tagged else M))"), rule=None, key='codes[tag]'),
     M('C13', 'optional-rendered-as-plus', E(RX, "        if (m is None or m == 0) and M is None:\n            part = regex + '*'\n        elif M is None:", "        if m is None and M is None:\n            part = regex + '*'\n        elif M is None:"),
       rule='C13-QUANT', key='fragment2re'),
     M('C13', 'range-upper-bound-dropped', E(RX, "('{%d,%s}' % (m, M))", "('{%d,%s}' % (m, M - 1))"), rule='C13-QUANT', key='fragment2re'),
